@@ -254,6 +254,11 @@ class Program:
             k2 = [0]
             for st in ch.body:
                 self._visit_node(st, q, c, None, m, unique, k2, visit)
+            # class-level aliases of methods defined earlier in the body:  __call__ = floor
+            for st in ch.body:
+                if isinstance(st, ast.Assign) and len(st.targets) == 1 and isinstance(st.targets[0], ast.Name) and isinstance(st.value, ast.Name) and st.value.id in c.methods:
+                    c.methods.setdefault(st.targets[0].id, c.methods[st.value.id])
+                    self.funcs.setdefault(q + "." + st.targets[0].id, c.methods[st.value.id])
         else:
             for g in ast.iter_child_nodes(ch):
                 self._visit_node(g, prefix, cls, parent, m, unique, lam_k, visit)
@@ -264,16 +269,37 @@ class Program:
             raise AnchorMissing("module labella/%s.py" % name)
         return self.modules[name]
 
+    def _via_import(self, qual, depth=0):
+        """`mod.name[.rest]` where `mod` imports `name` from another module of the package -> the defining qualname
+        (a helper or class that was moved and re-imported keeps its anchor)."""
+        parts = qual.split(".")
+        if len(parts) < 2 or depth > 3 or parts[0] not in self.modules:
+            return None
+        imp = self.modules[parts[0]].imports.get(parts[1])
+        if imp is not None and imp[0] == "symbol" and imp[1].startswith(PKG + "."):
+            other = imp[1].split(".", 1)[1]
+            cand = ".".join([other, imp[2]] + parts[2:])
+            if cand in self.funcs or cand in self.classes:
+                return cand
+            return self._via_import(cand, depth + 1)
+        return None
+
     def func(self, qual):
         if qual not in self.funcs:
+            alt = self._via_import(qual)
+            if alt in self.funcs:
+                return self.funcs[alt]
             raise AnchorMissing("function %s" % qual)
         return self.funcs[qual]
 
     def has_func(self, qual):
-        return qual in self.funcs
+        return qual in self.funcs or self._via_import(qual) in self.funcs
 
     def cls(self, qual):
         if qual not in self.classes:
+            alt = self._via_import(qual)
+            if alt in self.classes:
+                return self.classes[alt]
             raise AnchorMissing("class %s" % qual)
         return self.classes[qual]
 
